@@ -171,6 +171,15 @@ func findSyscallNum(instructions []string, syscall *Syscall, matchers ...*regexp
 	return fmt.Errorf("assembly instruction for loading the syscall number was not found")
 }
 
+// functionOperand returns the operand of the instruction, which follows the
+// location, address and opcode fields.
+func functionOperand(fields []string) string {
+	if len(fields) < 3 {
+		return ""
+	}
+	return strings.Join(fields[3:], " ")
+}
+
 func lastInstruction(instructions []string) string {
 	if len(instructions) >= 2 {
 		return instructions[len(instructions)-2]
@@ -216,7 +225,7 @@ func parseX86_64(p *parser, line, caller string, instructions []string) (*Syscal
 				fields := strings.Fields(line)
 				return &Syscall{
 					Location: fields[0],
-					Function: strings.Join(fields[3:], " "),
+					Function: functionOperand(fields),
 					Num:      0,
 					Assembly: "XORL AX, AX",
 				}, nil
@@ -233,7 +242,7 @@ func parseX86_64(p *parser, line, caller string, instructions []string) (*Syscal
 	fields := strings.Fields(line)
 	s := &Syscall{
 		Location: fields[0],
-		Function: strings.Join(fields[3:], " "),
+		Function: functionOperand(fields),
 	}
 	if err := findSyscallNum(instructions, s, m); err != nil {
 		return nil, fmt.Errorf("failed to extract syscall from '%v': %v",
